@@ -7,6 +7,7 @@ CONSTANTS
   MaxLatch = 0
   FileSteps = FALSE
   QKinds = {"zero"}
+  Fix = {}
   KKOps = {"U"}
 VIEW gview
 INVARIANTS PrintCexZ
